@@ -41,6 +41,10 @@ import BlocV.DrvC15
 import BlocV.DrvC09
 -- END C09
 
+-- BEGIN C11
+import BlocV.DrvC11
+-- END C11
+
 open BlocV BlocV.Proto
 
 def specIRes : Spec.IRes → String
@@ -97,6 +101,9 @@ def handleTok (hex reader : String) : String :=
 -- END C13
 
 def handle (words : List String) : String :=
+  -- BEGIN C11
+  if let some r := DrvC11.handle words then r else
+  -- END C11
   -- BEGIN C09
   if let some r := DrvC09.handle words then r else
   -- END C09
